@@ -8,6 +8,25 @@ EVID = os.path.join(ROOT, "evidence")
 HARNESS_DIR = os.path.join(ROOT, "harness")
 HARNESS_BIN = os.path.join(HARNESS_DIR, "target", "release", "suiron-verif-harness")
 KNOWN = os.path.join(ROOT, "known_findings.json")
+# Development only (never set by a registered command): VERIF_ALT=<name>:<path of a checkout of suiron-rust> runs the
+# check against that checkout instead of /repo, with its own harness build, work and evidence directories under
+# work/alt-<name>/ -- so that checks can be developed on a clean tree while /repo is patched for a mutant evaluation.
+ALT = os.environ.get("VERIF_ALT")
+if ALT:
+    _name, _repo = ALT.split(":", 1)
+    _base = os.path.join(WORK, "alt-" + _name)
+    WORK = os.path.join(_base, "work")
+    EVID = os.path.join(_base, "evidence")
+    HARNESS_DIR = os.path.join(_base, "harness")
+    HARNESS_BIN = os.path.join(HARNESS_DIR, "target", "release", "suiron-verif-harness")
+    os.makedirs(os.path.join(HARNESS_DIR, ".cargo"), exist_ok=True)
+    os.makedirs(WORK, exist_ok=True)
+    _src = os.path.join(ROOT, "harness")
+    with open(os.path.join(HARNESS_DIR, "Cargo.toml"), "w") as _f:
+        _f.write(open(os.path.join(_src, "Cargo.toml")).read().replace('path = "/repo"', 'path = "%s"' % _repo))
+    shutil.copy(os.path.join(_src, ".cargo", "config.toml"), os.path.join(HARNESS_DIR, ".cargo", "config.toml"))
+    if not os.path.islink(os.path.join(HARNESS_DIR, "src")):
+        os.symlink(os.path.join(_src, "src"), os.path.join(HARNESS_DIR, "src"))
 TLC_WORKERS = os.environ.get("VERIF_TLC_WORKERS", "10")
 CURRENT_TIER = ["quick"]
 
@@ -259,6 +278,16 @@ def do_replay(prop, path):
         rep = json.load(f)
     wd = os.path.join(WORK, "replay-%s" % prop)
     os.makedirs(wd, exist_ok=True)
+    if rep["case"].get("t") == "trace":
+        import tracejobs
+        rejs = tracejobs.replay(rep["case"], wd)
+        for r in rejs:
+            print("REPRODUCED property=%s kind=trace-rejected at line %d, model at %s" % (prop, r["at"], r["model"][:200]))
+        if rejs:
+            print("VIOLATION property=%s replay=%s" % (prop, path))
+            return 1
+        print("not reproduced: the recorded execution of this program is accepted on the current tree")
+        return 0
     cp = os.path.join(wd, "cases.ndjson")
     with open(cp, "w") as f:
         f.write(json.dumps(rep["case"]) + "\n")
